@@ -80,6 +80,10 @@ CHECKS['C19'] = dict(cat='proof', ref='DESIGN.md section 3 C19',
     text='Exhaustive over the finite product sde_type x noise_type x method (incl. None) x Levy area of the supplied Brownian motion (incl. bm=None) x adaptive x logqp (1600 cells): the real check_contract -> methods.select -> solver constructors are executed; ValueError before integration iff the cell is outside the documented table; default methods and default Brownian motion; 27 malformed-argument classes; adjoint side: for every (sde_type, noise, adjoint_method) the adjoint solver integrates iff admissible, else an explicit error at construction / initial state / first step.',
     note='T6; the documented table (DOCUMENTATION.md + settings.py) is the specification; shapes are concrete small sizes (the code only compares sizes)',
     tech='contract-based deductive verification: pyvc execution of the real front-end code, exhaustive enumeration of the finite configuration space against a specification table')
+CHECKS['C09'] = dict(cat='other', ref='DESIGN.md section 3 C09',
+    text='Bounded symbolic stand-ins plus a trusted theorem: (1) the real sdeint and the real sdeint_adjoint (top-level functions, check_contract, constructors) return identical values on generic f, g, y0, Brownian path; (2) the real backward pass equals the specification (reverse solve per output interval with the time-reversed same Brownian motion, jumps grad_ys[i-1], state reset to ys[i-1]) evaluated with the real AdjointSDE and adjoint solver; gradient routing; (3) reversible-Heun pair end-to-end against backprop. Convergence as dt->0 is NOT proved (Li et al. 2020 trusted).',
+    note='no obligation is counted as proved: every check is a bounded instance (3 output times, 2 steps per interval, B=d=m=1), generic in all symbolic inputs; T1,T3,T5,T6,T7; vector fields are C11',
+    tech='contract-based deductive verification family: bounded symbolic execution of the real top-level code against a specification built from the contracts of C11/C12 (bounded stand-in), exact polynomial normal form')
 REASONS = {}
 checks = []
 for p in props:
